@@ -24,6 +24,7 @@
 From Coq Require Import List Arith Bool NArith Lia.
 From PQ Require Import Dremel.Model Dremel.Proofs Convert.Model Convert.Proofs Convert.Widen Convert.WidenProofs.
 From PQ Require Import Convert.Sorting Convert.SortingProofs.
+From PQ Require Import Convert.Chunks Convert.ChunksProofs.
 Import ListNotations.
 
 (** Re-assembling the converted columns of a row with the target schema yields
@@ -183,7 +184,30 @@ Theorem C12_sorting_after_dropped_column_refuted :
   kept_prefix nat kept [0; 1] = [].
 Proof. exact skipping_dropped_columns_refuted. Qed.
 
+(** The column-chunk view of a converted row group
+    (ConvertRowGroup(rg, conv).ColumnChunks(), Convert/Chunks.v): for a target
+    column [c] that the conversion copies from a source column, the entries of
+    the rows i .. j-1 of its chunk (a page, Page.Slice(i, j) of a page, a
+    row-range view) are column [c] of the rows i .. j-1 converted through the
+    row path (for which the theorems above hold); a slice of a slice is the
+    slice of the sum of the offsets.  Targets that only delete and permute
+    columns have copied columns only.  The chunks of the columns that the
+    source lacks are not modelled (known finding
+    converted-column-chunks-levels), nor are the levels of widened nodes there. *)
+Theorem C12_copied_column_chunk_is_row_path :
+  forall (V : Type) (zero : N -> V) (src tgt : nschema) (c i j : nat) (rows : list (list (column V))) (col : column V),
+    chunk_view V (plan V zero src tgt 0 0) c (row_slice i j rows) = Some col ->
+    col = chunk_of V c (row_slice i j (map (conv V (plan V zero src tgt 0 0)) rows)).
+Proof. intros V zero src tgt. exact (chunk_view_is_row_path V (plan V zero src tgt 0 0)). Qed.
+
+Theorem C12_slice_of_slice :
+  forall (A : Type) (i j x y : nat) (l : list A),
+    i + y <= j -> row_slice x y (row_slice i j l) = row_slice (i + x) (i + y) l.
+Proof. exact row_slice_slice. Qed.
+
 Print Assumptions C12_converted_sorting_columns_sound.
+Print Assumptions C12_copied_column_chunk_is_row_path.
+Print Assumptions C12_slice_of_slice.
 Print Assumptions C12_sorting_after_dropped_column_refuted.
 Print Assumptions C12_convert_is_projection.
 Print Assumptions C12_widened_convert_is_projection.
@@ -276,6 +300,25 @@ Example C12_ex_reassembled :
   | None => None
   end = Some (project nat zn ex_src ex_tgt ex_v, repeat [] 9).
 Proof. vm_compute. reflexivity. Qed.
+
+(* the column-chunk view of three rows, rows 1 .. 2: the copied columns hold
+   what the row path yields for them, at the place the target gives them *)
+Definition ex_rows : list (list (column nat)) :=
+  [shred_row (erase ex_src) ex_v; shred_row (erase ex_src) ex_v2; shred_row (erase ex_src) ex_v].
+
+Example C12_ex_chunk_views :
+  chunk_views nat (plan nat zn ex_src ex_tgt 0 0) 1 3 ex_rows =
+  [ None;                                                        (* 3.21 added *)
+    Some [(None, 0, 0); (Some 5, 0, 1)];                         (* 3.20.30 = source column 3 *)
+    Some [(None, 0, 0); (Some 2, 0, 1); (Some 3, 1, 1)];         (* 2.11 = source column 2 *)
+    None;                                                        (* 2.12 added *)
+    Some [(None, 0, 0); (Some 1, 0, 2); (None, 1, 1)];           (* 2.10 = source column 1 *)
+    None; None; None;
+    Some [(Some 101, 0, 0); (Some 100, 0, 0)] ]                  (* 1 = source column 0 *)
+  /\ map (fun c => chunk_of nat c (row_slice 1 3 (map (conv nat (plan nat zn ex_src ex_tgt 0 0)) ex_rows))) [1; 2; 4; 8] =
+  [ [(None, 0, 0); (Some 5, 0, 1)]; [(None, 0, 0); (Some 2, 0, 1); (Some 3, 1, 1)];
+    [(None, 0, 0); (Some 1, 0, 2); (None, 1, 1)]; [(Some 101, 0, 0); (Some 100, 0, 0)] ].
+Proof. vm_compute. split; reflexivity. Qed.
 
 (* the per-row placeholder of Convert: the deepest shared group (here the root)
    sits at levels (0, 0) and has no direct leaf child; no source column is read *)
